@@ -28,6 +28,20 @@ def manifest_of(pid):
 
 CHECKS = {pid: manifest_of(pid) for pid in CLAIMED}
 
+
+def drivers_of(pids):
+    import re
+    out = []
+    for pid in pids:
+        src = open(os.path.join(HERE, "harness", pid.lower() + ".py")).read()
+        m = re.search(r"DRIVERS\s*=\s*\[(.*?)\]", src)
+        ds = [x.strip().strip('"').strip("'") for x in m.group(1).split(",") if x.strip()] if m else [pid]
+        for d in ds:
+            mod = f"IrisVerif.Driver.{d}"
+            if mod not in out:
+                out.append(mod)
+    return out
+
 NOT_YET = {}
 for i in range(1, 21):
     pid = f"C{i:02d}"
@@ -51,7 +65,7 @@ def main():
         })
     m = {
         "version": 1,
-        "setup_cmd": "cd /verif && /venv/bin/python tools/py2lean.py && cd lean && lake build",
+        "setup_cmd": "cd /verif && /venv/bin/python tools/py2lean.py && cd lean && lake build IrisVerif " + " ".join(drivers_of(CLAIMED)),
         "hooks": {
             "guard": "IRISPIE_VERIF",
             "enable": "no hooks are needed: the harness calls irispie in-process (editable install of /repo/src); IRISPIE_VERIF is reserved and unused",
